@@ -460,6 +460,9 @@ func malformed(sp *spec.Spec, sv *spec.Service, m *spec.Method, r *vc.Rand, mk f
 	if !ok {
 		return out
 	}
+	if h.Multipart {
+		return append(out, multipartMalformed(sp, sv, m, r.Fork(0x3a17), tree, mk, validResult)...) // multipart.go
+	}
 	rq, err := Raw(sp, sv, m, tree, 0)
 	if err != nil || len(rq.Body) < 2 {
 		return out
